@@ -80,8 +80,11 @@ def gen_doc(rng, k):
             lim_txt, lim_val = None, None
         elif lim_kind == 1:
             dlo, dhi = -rng.randint(30, 180), rng.randint(30, 180)
+            if rng.random() < 0.6:                 # fractional degrees, written as <digits>.<digits>
+                dlo = f"{dlo}.{rng.choice(['5', '25', '75', '125', '0', '05'])}"
+                dhi = f"{dhi}.{rng.choice(['5', '25', '75', '125', '0', '05'])}"
             lim_txt = (f"${{radians({dlo})}}", f"${{radians({dhi})}}")
-            lim_val = (("ARad", Fraction(dlo) * PI / 180), ("ARad", Fraction(dhi) * PI / 180))
+            lim_val = (("ARad", Fraction(str(dlo)) * PI / 180), ("ARad", Fraction(str(dhi)) * PI / 180))
         elif lim_kind == 2 and k % 4 == 1:
             lim_txt, lim_val = ("${-pi}", repr(hi)), (("ABadAngle",), ("ARad", dec(hi)))
         else:
@@ -148,8 +151,15 @@ def gen_doc(rng, k):
     if k % 17 == 12:
         cut = rng.randrange(len(text))
         text = text[:cut] if rng.random() < 0.5 else text[:cut] + "<<" + text[cut:]
-        return text, None, names, "malformed"
-    return text, tree, names, kind
+        return text, None, names, "malformed", None
+    # what the document means, read off the generator's own choices (independent of model and implementation)
+    expected = None
+    if kind in ("supported", "dup_identical"):
+        expected = {"geom": [a1, a2, b, c1, c2, c3, c4],
+                    "sg": [1 if j["axis_val"] is None else sum(j["axis_val"][1]) for j in joints],
+                    "lim": [None if (j["lim_val"] is None or any(v[0] != "ARad" for v in j["lim_val"])) else (float(j["lim_val"][0][1]), float(j["lim_val"][1][1])) for j in joints],
+                    "bad_angle": any(j["lim_val"] is not None and any(v[0] != "ARad" for v in j["lim_val"]) for j in joints)}
+    return text, tree, names, kind, expected
 
 
 def decode(zs):
@@ -177,12 +187,13 @@ def correspondence(tier, seed, n=None):
     rng = random.Random(seed * 104729 + 20)
     nd = n or (4000 if tier == "thorough" else 500)
     d = tempfile.mkdtemp(prefix="vh_c20_")
-    docs = []
+    docs, expd = [], []
     try:
         for k in range(nd):
-            text, tree, names, kind = gen_doc(rng, k)
+            text, tree, names, kind, exp = gen_doc(rng, k)
             open(f"{d}/d{k:05d}.urdf", "w").write(text)
             docs.append((tree, names, kind))
+            expd.append((exp, text))
         recs = [r for r in C.run_harness(["C20files", d]) if r.get("what") == "file"]
         # decorated names through the Rust simplifier
         namelist = []
@@ -199,9 +210,20 @@ def correspondence(tier, seed, n=None):
     failures, dis, compared, distinct = [], [], 0, 0
     dist = collections.Counter()
     exprs, sel = [], []
-    for r, (tree, names, kind) in zip(recs, docs):
+    for r, (tree, names, kind), (exp, text) in zip(recs, docs, expd):
         b = r["back"]
         dist[f"{kind}:{b['outcome']}"] += 1
+        if exp and not exp["bad_angle"] and b["outcome"] == "ok":
+            why = None
+            if any(abs(C.f64(h) - e) > 1e-9 for h, e in zip(b["geom"], exp["geom"])):
+                why = "C20.parameter_misread"
+            elif list(b["sg"]) != exp["sg"]:
+                why = "C20.axis_sign_misread"
+            elif any(l is not None and (abs(C.f64(b["from"][i]) - l[0]) > 1e-9 or abs(C.f64(b["to"][i]) - l[1]) > 1e-9) for i, l in enumerate(exp["lim"])):
+                why = "C20.limit_misread"
+            if why:
+                failures.append({"prop": "C20", "direct": "fail", "class": why, "document": text, "expected": exp,
+                                 "back": {k_: ([C.f64(h) for h in b[k_]] if k_ in ("geom", "from", "to") else b[k_]) for k_ in ("geom", "sg", "from", "to")}})
         if b["outcome"] == "panic":
             failures.append({"prop": "C20", "direct": "fail", "class": "C20.extraction_panics", "file": r["file"], "kind": kind, "msg": b["msg"]})
             continue
